@@ -23,7 +23,9 @@ RULE = ("Every public function, static method, instance method and "
         "equal results), history pairs f(a); g(b); f(a') with g drawn from "
         "the whole API, ill-typed probes (None, str, complex, list for a "
         "scalar, missing and extra positional) on every parameter, and "
-        "copy-constructor isolation. Non-trivial = call with an argument "
+        "copy-constructor isolation; the repository's own 250 tests run as one "
+        "more workload with the module digest taken after every test. "
+        "Non-trivial = call with an argument "
         "object shared between two parameters, list/tuple argument, module "
         "constant passed as argument, ill-typed probe; distinct by (target, "
         "arguments).")
@@ -118,6 +120,8 @@ def shards(tier, seed):
             "npairs": 40 if tier != "thorough" else 600} for m in mods]
     out.append({"name": "copies", "module": "__copies__", "ncalls": n,
                 "npairs": 0})
+    out.append({"name": "suite", "module": "__suite__", "ncalls": 0,
+                "npairs": 0})
     return out
 
 
@@ -199,14 +203,15 @@ _digest_cache = {}
 
 
 def module_digest():
-    """Digest of every module-level table / constant of every pymeeus
-    module."""
+    """{module name: digest of its module-level tables / constants} for every
+    loaded pymeeus module."""
     import sys
-    h = hashlib.blake2b(digest_size=16)
+    out = {}
     for name in sorted(sys.modules):
         if not name.startswith("pymeeus."):
             continue
         mod = sys.modules[name]
+        h = hashlib.blake2b(digest_size=16)
         for k in sorted(vars(mod)):
             v = vars(mod)[k]
             if k.startswith("__") or inspect.ismodule(v) or \
@@ -214,7 +219,14 @@ def module_digest():
                 continue
             h.update(k.encode())
             h.update(repr(snap(v)).encode())
-    return h.hexdigest()
+        out[name] = h.hexdigest()
+    return out
+
+
+def digest_changes(before, after):
+    """Modules present in both snapshots whose digest differs (a module that
+    was imported in between is not a change)."""
+    return sorted(m for m in before if m in after and before[m] != after[m])
 
 
 # ----------------------------------------------------------------- generators
@@ -618,8 +630,10 @@ class Universe(object):
         if not force and self.calls % 200:
             return
         d = module_digest()
-        self.mon.check("module-tables-unchanged", d == self.digest,
-                       {"recent_calls": self.recent[-12:]})
+        ch = digest_changes(self.digest, d)
+        self.mon.check("module-tables-unchanged", not ch,
+                       {"changed_modules": ch,
+                        "recent_calls": self.recent[-12:]})
         self.digest = d
         self.recent = []
 
@@ -1151,6 +1165,13 @@ CASES = {"module": case_module, "copies": case_copies,
 
 def run(mon, spec):
     sv = hash((spec["seed"], spec["name"])) & 0xFFFFFFFF
+    if spec["module"] == "__suite__":
+        # the repository's own tests as one more workload: digest of every
+        # module table / constant after each test
+        from vpm import suite
+        mon.begin("suite", [])
+        suite.run_suite(mon, "digests")
+        return
     if spec["module"] == "__copies__":
         mon.begin("copies", [sv])
         case_copies(mon, sv)
